@@ -1227,7 +1227,7 @@ var _ = sort.Strings
 func init() {
 	register(&Profile{
 		ID: "C05", Name: "idp-ingress", Level: "exploration",
-		Rule: "each run: two IdP tenants (SSO URLs where one is a prefix of the other) with registries of hand-built SP metadata (0-2 SPSSODescriptors, 0-4 ACS endpoints each, POST/Redirect/Artifact/unknown bindings, distinct/duplicate indices, isDefault true/false/absent, duplicate and near-miss locations); 1-3 steps, each: the real SP issues an AuthnRequest (redirect or POST binding), the network delays it so that its age at the IdP's skewed clock is {far-in, MaxIssueDelay-1ms, +1ms, edge, half, 1.5x, 5x, far-out, near/far future}, Mallory applies 0-2 edits to the unsigned document (ACS URL unregistered/near-miss/other registered, index registered/unregistered/non-numeric, index+disagreeing URL, neither, Issuer other/unknown/near-miss/dropped, Destination other tenant/near-miss/prefix/absent, Version variants, re-dating), the registry may change between issue and delivery, the message may reach the other tenant; the real IdP consumes it via NewIdpAuthnRequest+Validate or ServeSSO (plus IdP-initiated launches); non-trivial = a step with a non-far-in age, an edit, a cross-tenant delivery, a registry change, or a provider with >=2 registered endpoints; distinct = distinct abstract event log (binding, entry, age class, edit kinds, expectation incl. permitted endpoint set, outcome incl. selected endpoint)",
+		Rule: "each run: two IdP tenants (SSO URLs where one is a prefix of the other) with registries of hand-built SP metadata (0-2 SPSSODescriptors, 0-4 ACS endpoints each, POST/Redirect/Artifact/unknown bindings, distinct/duplicate indices, isDefault true/false/absent, duplicate and near-miss locations); 1-3 steps, each: the real SP issues an AuthnRequest (redirect or POST binding), the network delays it so that its age at the IdP's skewed clock is {far-in, MaxIssueDelay-1ms, +1ms, edge, half, 1.5x, 5x, far-out, near/far future}, Mallory applies 0-2 edits to the unsigned document (ACS URL unregistered/near-miss/other registered, index registered/unregistered/non-numeric, index+disagreeing URL, neither, Issuer other/unknown/near-miss/dropped, Destination other tenant/near-miss/prefix/absent, Version variants, re-dating), the registry may change between issue and delivery, the message may reach the other tenant; the real IdP consumes it via NewIdpAuthnRequest+Validate or ServeSSO (plus IdP-initiated launches); non-trivial = a step with a non-far-in age, an edit, a cross-tenant delivery, a registry change, or a provider with >=2 registered endpoints; distinct = distinct abstract event log (binding, entry, age class, edit kinds, expectation incl. permitted endpoint set, outcome incl. selected endpoint); registered ACS elements may carry a ResponseLocation attribute (never a routing target); the HTTP Host header may follow the delivered document's Destination or name a proxy (the configured SSO URL alone says where the IdP lives)",
 		Gen:  genIngress, Exec: execIngress, Simplify: simplifyIngress,
 		RunsQuick: 8000, RunsThorough: 800000,
 		Assumptions: []string{
